@@ -16,7 +16,7 @@ RULE = ('complete products: all texts of length 0..3 (4 thorough) over {a,B,?,*,
         '{omitted,1..len+1}; & and CONCATENATE over all ordered pairs and triples of 10 operand values; VALUE over the '
         'decimal grid texts with sign, padding and integer percents; non-trivial = clipped slices, empty results, errors, '
         'wildcard / case-differing searches, non-text operands')
-ASSUMPTIONS = ['find texts whose ~ is not followed by ? * or ~ are explored, not judged', 'blank and numeric first operands of '
+ASSUMPTIONS = ['find texts whose ~ is not followed by ? * or ~ are explored, not judged', 'numeric first operands of '
                'LEFT/RIGHT/MID are not enumerated (the statement speaks of texts)', 'SEARCH start 0/negative is not enumerated',
                'results must be str: a blank object standing in for an empty text is a different value',
                'date-times with a time part have no fixed text form and are not enumerated']
